@@ -370,6 +370,8 @@ func checkC02(c *Ctx, r *Report) {
 		}
 		// ---- C02.conflict
 		c.checkTagConflict(r, fns, tagTable)
+		// ---- C02.prefix-order (partial evaluation over all tag shapes)
+		c.checkMatcherSemantics(r, matcher, rf)
 	} else {
 		r.Undecided("C02.result:matcher", c.pos(rf.Pos()), "matcher function not resolved")
 	}
